@@ -1,5 +1,6 @@
 """C16 - explain and discover describe the same classification that up applies."""
 from engine.ob import REPO_SRC  # noqa: E402
+from engine.ob import pick as _pick, flag as _flag  # noqa: F401
 from engine.ob import Obligation, post, reset_tally_caches
 from harness import wiring as W
 
@@ -176,7 +177,7 @@ def _parse_digest(rec, with_supp=True):
     return out
 
 
-def wiring(n, kind, supp=False):
+def wiring(n, kind, supp=False, ms_fixed=None):
     W.rules_path('rules')
     W.rules_path('csv')
 
@@ -188,6 +189,8 @@ def wiring(n, kind, supp=False):
         from tally.commands import run as runmod, explain as exmod, discover as dimod
         flags = [{'exists': ex0, 'comma_decimal': cd0, 'delimiter': True}, {'exists': ex1, 'comma_decimal': cd1, 'no_header': True, 'supplemental': supp},
                  {'exists': ex2, 'comma_decimal': cd2, 'negate': True}][:n]
+        if ms_fixed is not None:
+            ms = ms_fixed
         mode = 'most_specific' if ms else 'first_match'
         digests = []
         recs = []
@@ -240,7 +243,7 @@ def explain_merchant_lookup():
         flags = [{'exists': True}, {'exists': bool(ex1)}]
         rec = W.Recorder(flags, rules_kind='rules', real_analyze=True)
         args = _args_explain()
-        q = QUERIES[int(qi)]
+        q = QUERIES[_pick(qi, 5)]
         args.merchant = [q]
         W.run_command(exmod, 'cmd_explain', args, rec)
         txns = [t for i, f in enumerate(flags) if f['exists'] for t in W.canned_txns(i)]
@@ -265,8 +268,9 @@ def obligations(tier, seed):
                               group='known findings', bounds=f'template {name}, transaction {args}'))
     for n in [2, 3]:
         for kind in ['rules', 'csv']:
-            obs.append(Obligation(id=f'wiring-n{n}-{kind}', factory='wiring', params={'n': n, 'kind': kind}, timeout=170 if q else 900, group='explain / discover / up wiring',
-                                  bounds=f'{n} sources (no supplemental source), rules file kind {kind}; symbolic file-exists and decimal-separator flags per source, symbolic rule mode'))
+            for msf in ([None] if n == 2 else [False, True]):       # 3 sources: one obligation per rule mode (64 paths each)
+                obs.append(Obligation(id=f'wiring-n{n}-{kind}' + ('' if msf is None else '-ms%d' % msf), factory='wiring', params={'n': n, 'kind': kind, 'ms_fixed': msf}, timeout=170 if q else 900, group='explain / discover / up wiring',
+                                      bounds=f'{n} sources (no supplemental source), rules file kind {kind}; symbolic file-exists and decimal-separator flags per source, ' + ('symbolic rule mode' if msf is None else 'rule mode ' + ('most_specific' if msf else 'first_match'))))
     obs.append(Obligation(id='explain-merchant-lookup', factory='explain_merchant_lookup', timeout=170 if q else 600, group='explain / discover / up wiring',
                           bounds='explain <merchant> for a symbolic choice among 5 names (two differ only in letter case); second source exists or not'))
     obs.append(Obligation(id='known-supplemental-sources', factory='wiring', params={'n': 2, 'kind': 'rules', 'supp': True}, kind='known',
